@@ -98,6 +98,8 @@ def decode_op(weights):
             n = (1, 1, 2, 0, 1, 2, 3, 1)[d[1] >> 1]
             return ['create', (d[0] % len(EXPLICIT_IDS)) + 1 if d[1] & 1 else 0, [x % 8 for x in d[2:2 + n]],
                     ARM_TABLE[d[5]] if REACTIONS else 0]
+        if name == 'merge':
+            return ['merge', d[0], [x % 8 for x in d[1:1 + (1, 1, 2, 3)[d[4] % 4]]]]
         if name == 'add':
             return ['add', d[0], d[1], d[2] % 4, ARM_TABLE[d[3]] if REACTIONS else 0]
         if name == 'remove':
@@ -484,6 +486,50 @@ class Run:
             for c in comps:
                 row[type(c)] = c
         self.owe([('on_add', c, got) for c in comps if self.maps(c, 'on_add')])
+
+    def op_merge(self, ent_ix, cixs):
+        """create_entity(*components, entity_id=<an id that already owns components>), the new components being of
+        exact types the entity does not hold yet.  Whether the entity then holds old and new components (merged) or
+        only the new ones (replaced) is not fixed by the statement: whichever get_components tells, every other
+        query has to tell the same story."""
+        e = self.target(ent_ix)
+        if ('queries' not in self.checks or e is None or not self.owns(e) or self.is_marked(e)
+                or self.is_pending(e)):
+            return self.noop()
+        row = self.attached[e]
+        comps = []
+        for cix in cixs:
+            cls = self.classes[cix % len(self.classes)]
+            if cls in row or any(type(c) is cls for c in comps):
+                self.excluded['merge_of_a_type_already_held'] += 1
+                continue
+            comps.append(self.new_comp(cix))
+        if not comps:
+            return self.noop()
+        self.busy.append(e)
+        try:
+            got = self.call_op(self.world.create_entity, *comps, entity_id=e)
+        finally:
+            self.busy.pop()
+        if not (got == e):
+            self.viol('create_entity_returned_other_id', asked=e, returned=got)
+        try:
+            told = list(self.world.get_components(e))
+        except Exception as exc:
+            self.viol('query_raised', query='get_components', entity=repr(e), exception=repr(exc))
+        ids = sorted(id(c) for c in told)
+        if ids == sorted(id(c) for c in list(row.values()) + comps):
+            self.flags['create_on_an_id_that_owns_components:merged'] += 1
+        elif ids == sorted(id(c) for c in comps):
+            self.flags['create_on_an_id_that_owns_components:replaced'] += 1
+            self.detached.extend(row.values())
+            row.clear()
+        else:
+            self.viol('create_on_an_owned_id_neither_merges_nor_replaces', entity=repr(e),
+                      told=[repr(c) for c in told])
+        for c in comps:
+            row[type(c)] = c
+        self.owe([('on_add', c, e) for c in comps if self.maps(c, 'on_add')])
 
     def op_add(self, ent_ix, cix, reuse, arm=0):
         e = self.target(ent_ix)
